@@ -389,3 +389,107 @@ Example ex_header_fragment :
   | None => False
   end.
 Proof. vm_compute. reflexivity. Qed.
+
+(* ==== the text half, part 2: the edit operations preserve the WF backbone (Spec/WF.v) ==================
+   WF root := t_dotted root = false /\ tbl_wf true root /\ tbl_lim 0 0 root /\ order_ok root (eng-c14).
+   `step_side o t` = `wf_side o t && lim_side o t && order_side o t`, a decidable predicate on (operation, tree):
+     wf_side    per operation (Proofs/EditWFText.v); it is where the known classes of C08 live:
+                  - keys created through the API are UTF-8, payload strings are UTF-8 and integers fit i64 (`pv_ok`);
+                  - `doc[..] = table()` only directly under a table, never under an existing or auto-vivified
+                    inline table (`iset_side`: class C06-table-in-inline);
+                  - a table edited by insert-table / remove / a conversion / IndexMut stays at least as visible
+                    (`vis_side`: a dotted table keeps a key/value line, an implicit table keeps a line or a header
+                    below it), an array of tables keeps an element, a dotted inline table keeps an entry
+                    (class C08-empty-container-vanishes);
+                  - make_value: no dotted inline table below the converted table (`mv_good`);
+                  - no condition at all for insert of a value, the array operations, ArrayOfTables::push,
+                    sort_values and fmt;
+     lim_side   the RESULT is within the implementation limits (`tbl_lim_b`, proved sound here);
+     order_side the RESULT's positions are in order (`order_b`, proved sound here: class
+                C08-unpositioned-element-misplaced); the array operations and fmt can never break it (C08_order_free). *)
+From TV Require Import Spec.WF Proofs.WFBool Proofs.EditWFTextBase Proofs.EditWFTextOps Proofs.EditWFText.
+
+(* tbl_wf alone, under the operation's own side condition; the root keeps its flags *)
+Theorem C08_step_tbl_wf : forall t o t',
+  tbl_wf true t -> apply o t = Some t' -> wf_side o t = true ->
+  tbl_wf true t' /\ t_dotted t = t_dotted t'.
+Proof. intros t o t' Hw H Hs. destruct (step_tbl_wf t o t' Hw H Hs) as [H1 (H2 & _)]. auto. Qed.
+Print Assumptions C08_step_tbl_wf.
+
+Theorem C08_step_wf_text : forall t o t', WF t -> apply o t = Some t' -> step_side o t = true -> WF t'.
+Proof. exact step_WF. Qed.
+Print Assumptions C08_step_wf_text.
+
+Theorem C08_order_free : forall o t t',
+  order_free o = true -> apply o t = Some t' -> order_ok t -> order_ok t'.
+Proof. exact order_free_ok. Qed.
+Print Assumptions C08_order_free.
+
+Theorem C08_history_wf_text : forall ops t t',
+  WF t -> apply_seq ops t = Some t' -> history_side ops t = true -> WF t'.
+Proof. exact history_WF. Qed.
+Print Assumptions C08_history_wf_text.
+
+(* the round trip of edited documents, GIVEN the WF backbone's print/parse theorem (eng-c14's
+   `WF_print_parse`, an explicit premise here until it exists): the printed text of the edited tree
+   parses, and to the content the reference computes *)
+Theorem C08_text_roundtrip :
+  (forall t, WF t -> exists d, parse_document (display_document t REmpty) = POk d /\ abs (doc_root d) = abs t) ->
+  forall ops t t', WF t -> apply_seq ops t = Some t' -> history_side ops t = true ->
+  exists d, parse_document (display_document t' REmpty) = POk d
+            /\ abs (doc_root d) = abs t' /\ abs (doc_root d) = spec_apply_all ops (abs t).
+Proof.
+  intros Hpp ops t t' Hw H Hs. destruct (text_roundtrip Hpp ops t t' Hw H Hs) as (d & Hp & Ha).
+  exists d. split; [exact Hp|]. split; [exact Ha|]. rewrite Ha. exact (history_content_all ops t t' H).
+Qed.
+Print Assumptions C08_text_roundtrip.
+
+(* ---- the side conditions are satisfiable, and each is needed ---- *)
+Definition root_of (s : bytes) : option tbl :=
+  match parse_document s with POk d => tbl_despan s (doc_root d) | _ => None end.
+Definition on_root {A} (s : bytes) (f : tbl -> A) (dflt : A) : A :=
+  match root_of s with Some r => f r | None => dflt end.
+
+(* the example document is well-formed (boolean checker of Proofs/WFBool.v) and ordinary edits meet their side conditions *)
+Example ex_sides_hold :
+  on_root ex_src wf_b false = true
+  /\ on_root ex_src (history_side [OInsert [] (str "c") (PVStr (str "hi")); ORemove [] (str "a");
+                                   OArrPush [SKey (str "b")] (PVBool true); OInsertTable [] (str "n");
+                                   OSort [SKey (str "t")]; OFmt [SKey (str "t"); SKey (str "k")];
+                                   OISet [str "n"; str "x"; str "y"] (IPValue (PVInt 1))]) false = true.
+Proof. vm_compute. split; reflexivity. Qed.
+
+(* C06-table-in-inline: a table assigned under an inline table violates wf_side (and WF: "inline tables hold values only") *)
+Example ex_side_table_in_inline :
+  on_root (str "t = {a = 1}
+") (wf_side (OISet [str "t"; str "x"] IPTable)) true = false.
+Proof. vm_compute. reflexivity. Qed.
+
+(* C08-empty-container-vanishes: removing the only line of a dotted table, the only element of an array of tables *)
+Example ex_side_vanish :
+  on_root (str "a.b = 1
+") (wf_side (ORemove [SKey (str "a")] (str "b"))) true = false
+  /\ on_root (str "[[a]]
+x = 1
+") (wf_side (OAotRemove [SKey (str "a")] 0)) true = false.
+Proof. vm_compute. split; reflexivity. Qed.
+
+(* C08-unpositioned-element-misplaced: the push is fine, the sort breaks the order of the positions *)
+Example ex_side_order :
+  on_root (str "[[c]]
+[[c.b]]
+[c.a]
+x = 1
+") (fun r => (step_side (OAotPush [SKey (str "c")]) r,
+              match apply (OAotPush [SKey (str "c")]) r with
+              | Some r1 => (wf_side (OSort [SKey (str "c"); SIdx 0]) r1, order_side (OSort [SKey (str "c"); SIdx 0]) r1)
+              | None => (false, true)
+              end)) (false, (false, true))
+  = (true, (true, false)).
+Proof. vm_compute. reflexivity. Qed.
+
+(* payloads must be printable: a string that is not UTF-8 has no default repr *)
+Example ex_side_payload :
+  on_root ex_src (wf_side (OInsert [] (str "c") (PVStr [xff]))) true = false
+  /\ on_root ex_src (wf_side (OInsert [] [xff] (PVInt 1))) true = false.
+Proof. vm_compute. split; reflexivity. Qed.
